@@ -630,8 +630,9 @@ template <class D> struct DomHist : Exec {
       break; }
     case 19: {
       Relation_Symbol rel = RELS[r.below(3)];
+      // (BD_Shape::generalized_affine_image(lhs, rel, rhs) leaves an inconsistent internal state, DESIGN.md §9 no. 10: not run on bds)
       op2("generalized_affine_image(lhs, rel, rhs of own constraints)", d, x, a, y, [sel, rel](D& x, const D& y) {
-        if constexpr (is::pps) { (void) sel; (void) rel; (void) y; }
+        if constexpr (is::pps || is::bds) { (void) sel; (void) rel; (void) y; }
         else { const auto& cs = y.constraints(); const Constraint* c1 = kth(cs, sel); const Constraint* c2 = kth(cs, sel + 1);
           if (c1 && c2) { LE l(c1->expression()), rr(c2->expression()); x.generalized_affine_image(l, rel, rr); } } });
       break; }
@@ -762,6 +763,7 @@ template <class D> struct DomHist : Exec {
     case 10: {
       // one expression object in two argument positions
       Relation_Symbol rel = RELS[r.below(3)];
+      if constexpr (is::bds) { op1("unconstrain", d, x, [&](D& x) { x.unconstrain(Variable(v)); }); break; }
       param(e);
       if constexpr (is::grid) op3("generalized_affine_image(e, =, e)", d, x, S_PAR, e, S_PAR, e, [&](D& x, const LE& f, const LE& g) { x.generalized_affine_image(f, EQUAL, g); });
       else op3("generalized_affine_image(e, rel, e)", d, x, S_PAR, e, S_PAR, e, [&](D& x, const LE& f, const LE& g) { x.generalized_affine_image(f, rel, g); });
